@@ -343,6 +343,7 @@ func runHist(w *rig.Writer, pool *histPool, d c18HistDesc) (rig.Case, bool) {
 	var items []string
 	nontrivial := false
 	wraps := false
+	nothingKept := false
 	d.Observed = nil
 	for _, sp := range d.Periods {
 		obs := sp.expand()
@@ -369,6 +370,7 @@ func runHist(w *rig.Writer, pool *histPool, d c18HistDesc) (rig.Case, bool) {
 		w.Count("hist period size=" + sizeClass(uint64(len(obs))))
 		if d.Sampled && kept == 0 && len(obs) > 0 {
 			w.Count("hist period sampled, nothing kept")
+			nothingKept = true
 		}
 	}
 	mode := "hook"
@@ -379,8 +381,12 @@ func runHist(w *rig.Writer, pool *histPool, d c18HistDesc) (rig.Case, bool) {
 	if wraps {
 		w.Count("hist case wraps the ring")
 	}
+	var tags []string
+	if nothingKept && d.HTTP {
+		tags = []string{"C18 sampled histogram period with 1-3 observations read from /metrics"}
+	}
 	return rig.Case{Desc: d, Coq: gal.App("CHist", gal.Bool(d.Sampled), gal.Bool(d.HTTP), gal.Bool(fresh), gal.List(items)),
-		Nontrivial: nontrivial}, true
+		Nontrivial: nontrivial, Tags: tags}, true
 }
 
 // histPool hands out histograms: new ones while the budget lasts (the package allows 1024 per
@@ -682,7 +688,11 @@ func valueInputs(e *env, r *rig.Rand) ([]uint64, []uint64) {
 func valCase(w *rig.Writer, x, lzp uint64) rig.Case {
 	d := c18ValDesc{Kind: "val", X: x, Bucket: metrics.VerifGetBucket(x), LzAsm: metrics.VerifLzcnt(x), LzPort: lzp}
 	w.Count(bitsClass(x))
-	return rig.Case{Desc: d, Coq: gal.App("CVal", gal.N(x), gal.N(d.Bucket), gal.N(d.LzAsm), gal.N(d.LzPort)), Nontrivial: x > 15}
+	var tags []string
+	if x == 0 {
+		tags = []string{"C18 lzcnt at 0"}
+	}
+	return rig.Case{Desc: d, Coq: gal.App("CVal", gal.N(x), gal.N(d.Bucket), gal.N(d.LzAsm), gal.N(d.LzPort)), Nontrivial: x > 15, Tags: tags}
 }
 
 type c18BatchDesc struct {
